@@ -157,7 +157,7 @@ func (s *scen) Apply(i int) (string, string) {
 		}
 		// a rejection needs a reason: batch above threshold, zero threshold, or the spacing
 		// (rounded up to whole ns) cannot be honoured within the queueing limit
-		just := s.cfg.T <= 0 || float64(o.batch) > s.cfg.T
+		just := float64(o.batch) > s.cfg.T
 		if !just && s.havePass {
 			earliest := s.lastPass + s.cfg.spacing(o.batch)
 			if earliest-arrival > maxQ {
@@ -171,7 +171,7 @@ func (s *scen) Apply(i int) (string, string) {
 		return "B", ""
 	}
 	e.Exit()
-	if s.cfg.T <= 0 || float64(o.batch) > s.cfg.T {
+	if float64(o.batch) > s.cfg.T {
 		return "P", fmt.Sprintf("%v admitted although its batch exceeds the threshold %v", o, s.cfg.T)
 	}
 	if wait < 0 {
@@ -179,6 +179,10 @@ func (s *scen) Apply(i int) (string, string) {
 	}
 	if wait > maxQ {
 		return "P", fmt.Sprintf("t=+%dns %v asked to wait %dns, more than the maximum queueing time %dns", arrival-T0, o, wait, maxQ)
+	}
+	if o.batch == 0 {
+		// a request for no tokens takes no place in the queue: nothing to space, nothing handed out
+		return fmt.Sprintf("P0+%d", wait), ""
 	}
 	pass := arrival + wait
 	if s.havePass && !s.fresh {
@@ -227,7 +231,7 @@ func (s *scen) Key() string {
 }
 
 func mkOps(cfg Config) []opDef {
-	ops := []opDef{{req: true, batch: 1}, {req: true, batch: 2}, {reload: true}}
+	ops := []opDef{{req: true, batch: 1}, {req: true, batch: 2}, {reload: true}, {req: true, batch: 0}}
 	x := int64(1e6)
 	if cfg.T > 0 {
 		x = cfg.spacing(1)
